@@ -36,6 +36,8 @@ RULE = (
     " Four threads convert and decode at once under yield injection; ten lazily decoded value"
     "s are read at every stack depth from 120 frames below the recursion limit up to it (righ"
     "t value or RecursionError)."
+    " 9000 (thorough 60000) distinct addresses / tick values with re-reads 1000..5000 values "
+    "later and in a second round."
 )
 ASSUMPTIONS = [
     "TimeTicks are hundredths of a second (RFC 2578 7.1.8); a timedelta that is not a multiple of 10 ms may be floored or rounded",
